@@ -43,25 +43,44 @@ def boundTest (bound : Option Bytes) (active incl upper : Bool) (p : Bytes) : Bo
   let c := OC.cmpB p (bound.getD [])
   active && (if upper then (c > 0 || (c == 0 && !incl)) else (c < 0 || (c == 0 && !incl)))
 
+/-- what `IterateRange` computes before touching the cursor: where the cursor lands after `Seek`
+    (the remaining entries in iteration order), the bound whose equal entries are skipped first (an
+    excluded start, resp. end when reversed), and the stop test of the main loop -/
+structure ScanPlan where
+  items : KVS
+  skip : Option Bytes
+  stopTest : Bytes → Bool
+
+/-- where a reverse scan seeks: just after every entry of the end value (`endKey ‖ 0xFF`), or after
+    the whole index when there is no end bound -/
+def revSeekKey (endKey : Option Bytes) (pfx : Bytes) : Bytes :=
+  match endKey with
+  | some e => e ++ [255]
+  | none => pfx ++ [255]
+
+def rangePlan (kv : KVS) (c f : Bytes) (r : Range) (rev : Bool) : ScanPlan :=
+  let pfx := Keys.idxPrefix c f
+  let startKey : Option Bytes := if r.isNilR || !r.start.isNull then some (rangeBoundKey c f r.start) else none
+  let endKey : Option Bytes := if r.isNilR || !r.stop.isNull then some (rangeBoundKey c f r.stop) else none
+  if !rev then
+    { items := seekFwd kv (startKey.getD pfx)
+      skip := if !r.start.isNull && !r.si then some (startKey.getD []) else none
+      stopTest := boundTest endKey (!r.stop.isNull || r.isNilR) r.ei true }
+  else
+    { items := seekRev kv (revSeekKey endKey pfx)
+      skip := if !r.stop.isNull && !r.ei then some (endKey.getD []) else none
+      stopTest := boundTest startKey (!r.start.isNull || r.isNilR) r.si false }
+
 /-- `IterateRange` -/
 def iterateRange (c f : Bytes) (r : Range) (rev : Bool) (onId : β → Bytes → StoreM (β × Flow))
     (acc : β) : StoreM β := do
   if r.isEmpty then return acc
-  let pfx := Keys.idxPrefix c f
-  let startKey : Option Bytes := if r.isNilR || !r.start.isNull then some (rangeBoundKey c f r.start) else none
-  let endKey : Option Bytes := if r.isNilR || !r.stop.isNull then some (rangeBoundKey c f r.stop) else none
   let kv ← snapshot
-  if !rev then
-    let items := seekFwd kv (startKey.getD pfx)
-    let items ← if !r.start.isNull && !r.si then skipEq (startKey.getD []) items else pure items
-    scanLoop pfx (boundTest endKey (!r.stop.isNull || r.isNilR) r.ei true) onId acc items
-  else
-    let seek := match endKey with
-      | some e => e ++ [255]
-      | none => pfx ++ [255]
-    let items := seekRev kv seek
-    let items ← if !r.stop.isNull && !r.ei then skipEq (endKey.getD []) items else pure items
-    scanLoop pfx (boundTest startKey (!r.start.isNull || r.isNilR) r.si false) onId acc items
+  let plan := rangePlan kv c f r rev
+  let items ← match plan.skip with
+    | some b => skipEq b plan.items
+    | none => pure plan.items
+  scanLoop (Keys.idxPrefix c f) plan.stopTest onId acc items
 
 /-- `Iterate` -/
 def iterateAll (c f : Bytes) (rev : Bool) (onId : β → Bytes → StoreM (β × Flow)) (acc : β) : StoreM β := do
